@@ -7,7 +7,8 @@ EXTENDS ListCrdt
 
 CONSTANTS Reps, ActorOf, MaxOps, Regime, UseMerge, UseSnap, UseDup,
           Kind,           \* "list" | "glist"
-          BeyondLen       \* how far past the end insert_index may aim (List clamps)
+          BeyondLen,      \* how far past the end insert_index may aim (List clamps)
+          DupElems        \* BOOLEAN (GList): also insert copies of an element that is already in the list
 
 VARIABLES st, know, ops, snap, hist
 
@@ -30,6 +31,11 @@ Cmds(s, r) ==
   ELSE {[c |-> "ins", i |-> i, v |-> v] : i \in 0..SLen(s)}
        \cup {[c |-> "after", i |-> i, v |-> v] : i \in 1..SLen(s)}
        \cup {[c |-> "before", i |-> i, v |-> v] : i \in 1..SLen(s)}
+       \* a list may hold the same element twice: insert a copy of the RIGHT neighbour just before it
+       \* (the new identifier must still be a new one)
+       \cup (IF DupElems THEN {[c |-> "after", i |-> i, v |-> GListRead(s)[i + 1]] : i \in 1..(SLen(s) - 1)}
+                               \cup {[c |-> "ins", i |-> i, v |-> GListRead(s)[i + 1]] : i \in 1..(SLen(s) - 1)}
+             ELSE {})
 
 MkOp(s, r, cmd) ==
   LET a == ActorOf[r] IN
@@ -86,7 +92,7 @@ UniqueIds ==
      (i # j /\ IsIns(ops, i) /\ IsIns(ops, j) /\ IdOf(ops, i) = IdOf(ops, j)) => (Kind = "glist" /\ ops[i].op = ops[j].op)
 \* C12: every replica shows the restriction of the one global order
 RefinesA == \A r \in Reps : ReadOf(st[r]) = ExpSeq(ops, know[r])
-EachOnce == \A r \in Reps : \A i, j \in 1..Len(ReadOf(st[r])) : i # j => ReadOf(st[r])[i] # ReadOf(st[r])[j]
+EachOnce == DupElems \/ \A r \in Reps : \A i, j \in 1..Len(ReadOf(st[r])) : i # j => ReadOf(st[r])[i] # ReadOf(st[r])[j]
 Converge == \A r, q \in Reps : know[r] = know[q] => st[r] = st[q]
 ClockOK == Kind = "list" => \A r \in Reps : st[r].clock = ExpClock(ops, know[r])
 DupNoop == \A r \in Reps : \A i \in know[r] : Apply(st[r], ops[i].op) = st[r]
